@@ -737,20 +737,442 @@ Qed.
 Definition p2 : peer := {| p_key := 2; p_pub := 2 |}.
 Definition p3 : peer := {| p_key := 3; p_pub := 3 |}.
 Definition p4 : peer := {| p_key := 4; p_pub := 4 |}.
-(* class 4 (open): the default room cannot be granted -> the table keeps the invitation until restart *)
+(* the witness of the repaired class 4 (default room that cannot be granted) and a grantable one *)
 Definition ungrantable : list dop :=
   [DCreate 2; DConsume (TkInvite 1) p2; DConsume (TkInvite 1) p3; DRestart; DConsume (TkInvite 1) p4].
-(* grantable / no default room: once, across restarts *)
 Definition grantable : list dop :=
   [DCreate 1; DCreate 0; DConsume (TkInvite 1) p2; DRestart; DConsume (TkInvite 1) p3; DConsume (TkInvite 2) p3; DRestart; DConsume (TkInvite 2) p4].
+(* class 5 (open): an own invitation accepted, then a restart *)
+Definition own_accepted : list dop :=
+  [DCreate 0; DAccept (InviteFor 1 1 (Some 2)); DRestart; DConsume (TkInvite 1) p3; DLookup (TkInvite 1) 2; DConsume (TkInvite 1) p2].
 Lemma invdb_witnesses :
-  run_C19 (CInvDb 1 me0 1 ungrantable) = [1; 1; 2; 1; 2; 1; 1; 0; 0; 0]%Z /\
-  spec_C19 (CInvDb 1 me0 1 ungrantable) (run_C19 (CInvDb 1 me0 1 ungrantable)) = false /\
-  known_C19 (CInvDb 1 me0 1 ungrantable) = [4]%Z /\
+  run_C19 (CInvDb 1 me0 1 ungrantable) = [1; 1; 2; 1; 0; 0; 1; 0; 0; 0]%Z /\
+  spec_C19 (CInvDb 1 me0 1 ungrantable) (run_C19 (CInvDb 1 me0 1 ungrantable)) = true /\
+  spec_C19 (CInvDb 1 me0 1 ungrantable) [1; 1; 2; 1; 2; 1; 1; 0; 0; 0]%Z = false /\
   run_C19 (CInvDb 1 me0 1 grantable) = [1; 1; 1; 2; 2; 1; 1; 0; 0; 0; 2; 1; 1; 0; 0; 0]%Z /\
   spec_C19 (CInvDb 1 me0 1 grantable) (run_C19 (CInvDb 1 me0 1 grantable)) = true /\
-  known_C19 (CInvDb 1 me0 1 grantable) = [].
+  run_C19 (CInvDb 1 me0 1 own_accepted) = [1; 1; 1; 0; 1; 0; 2; 1; 3; 1; 3; 1]%Z /\
+  spec_C19 (CInvDb 1 me0 1 own_accepted) (run_C19 (CInvDb 1 me0 1 own_accepted)) = false /\
+  known_C19 (CInvDb 1 me0 1 own_accepted) = [5]%Z.
 Proof. vm_compute. repeat split; reflexivity. Qed.
+
+(* ================================================================ whole histories with restarts *)
+Definition idin (i : N) (l : list (N * N * option key)) : bool := existsb (fun x => N.eqb (fst (fst x)) i) l.
+
+(* the table agrees with the pending set (agree), and so does the database: created invitations
+   (ranks below next) are pending iff their sys.OwnedInvite row exists, received ones (foreign ids,
+   above total) iff their sys.Invite row exists *)
+Record dagree (next total : N) (s : sys) (P : list N) : Prop := {
+  da_mem : agree next total (sy_pm s) P;
+  da_owned_lt : forall tk i, In (tk, TOwned i) (pm_tokens (sy_pm s)) -> i < next;
+  da_inv_gt : forall tk i a sg, In (tk, TInvite i a sg) (pm_tokens (sy_pm s)) -> total < i;
+  da_dbo_nodup : NoDup (sy_db_owned s);
+  da_dbo : forall i, i < next -> mem_n i P = existsb (N.eqb i) (sy_db_owned s);
+  da_dbo_lt : forall i, In i (sy_db_owned s) -> i < next;
+  da_dbi_uniq : NoDup (map (fun x => fst (fst x)) (sy_db_invites s));
+  da_dbi : forall i, total < i -> mem_n i P = idin i (sy_db_invites s);
+  da_dbi_gt : forall x, In x (sy_db_invites s) -> total < fst (fst x);
+  da_next : sy_next s = next }.
+
+Lemma existsb_eqb_In : forall i l, existsb (N.eqb i) l = true <-> In i l.
+Proof.
+  intros i l. rewrite existsb_exists. split.
+  - intros [x [Hx E]]. apply N.eqb_eq in E. subst. exact Hx.
+  - intro H. exists i. split; [exact H | apply N.eqb_refl].
+Qed.
+Lemma existsb_eqb_notin : forall i l, ~ In i l -> existsb (N.eqb i) l = false.
+Proof. intros i l H. destruct (existsb (N.eqb i) l) eqn:E; [|reflexivity]. apply existsb_eqb_In in E. contradiction. Qed.
+
+Lemma idin_In : forall i l, idin i l = true <-> In i (map (fun x : N * N * option key => fst (fst x)) l).
+Proof.
+  intros i l. unfold idin. rewrite existsb_exists. split.
+  - intros [x [Hx E]]. apply N.eqb_eq in E. apply in_map_iff. exists x. split; assumption.
+  - intro H. apply in_map_iff in H. destruct H as [x [E Hx]]. exists x. split; [exact Hx | apply N.eqb_eq; exact E].
+Qed.
+
+(* what PeerManager::new registers for invitation i *)
+Lemma cntr_owned_map : forall i l, NoDup l ->
+  cntr i (map (fun j => (TkInvite j, TOwned j)) l) = if existsb (N.eqb i) l then 1%nat else 0%nat.
+Proof.
+  intros i. induction l as [|j l IH]; intros ND; [reflexivity|].
+  inversion ND as [|x y Hj ND']; subst. cbn [map existsb]. unfold cntr in *. cbn [filter].
+  unfold registered at 1. cbn [fst snd token_eqb is_owned is_invite]. rewrite orb_false_r, andb_diag.
+  rewrite (N.eqb_sym i j). destruct (N.eqb j i) eqn:E; cbn [orb length].
+  - apply N.eqb_eq in E. subst j. rewrite (IH ND'). rewrite (existsb_eqb_notin i l Hj). reflexivity.
+  - apply IH. exact ND'.
+Qed.
+Lemma cntr_invite_map : forall i (l : list (N * N * option key)), NoDup (map (fun x => fst (fst x)) l) ->
+  cntr i (map (fun x => let '(j, a, sg) := x in (TkInvite j, TInvite j a sg)) l) = if idin i l then 1%nat else 0%nat.
+Proof.
+  intros i. induction l as [|[[j a] sg] l IH]; intros ND; [reflexivity|].
+  cbn [map fst] in ND. inversion ND as [|x y Hj ND']; subst. cbn [map]. unfold idin, cntr in *. cbn [existsb filter fst].
+  unfold registered at 1. cbn [fst snd token_eqb is_owned is_invite]. cbn [orb]. rewrite andb_diag.
+  destruct (N.eqb j i) eqn:E; cbn [orb length].
+  - apply N.eqb_eq in E. subst j. rewrite (IH ND').
+    assert (X : existsb (fun x : N * N * option key => N.eqb (fst (fst x)) i) l = false).
+    { destruct (existsb _ l) eqn:Ex; [|reflexivity]. exfalso. apply Hj. apply idin_In. exact Ex. }
+    rewrite X. reflexivity.
+  - apply IH. exact ND'.
+Qed.
+Lemma cntr_allowed_map : forall i sc (l : list peer),
+  cntr i (map (fun p => (token_of sc (p_pub p), TAllowed (p_key p))) l) = 0%nat.
+Proof.
+  intros i sc. induction l as [|p l IH]; [reflexivity|]. cbn [map]. unfold cntr in *. cbn [filter].
+  unfold registered at 1. cbn [snd is_owned is_invite orb]. rewrite andb_false_r. exact IH.
+Qed.
+
+Lemma agree_create : forall next total m P, agree next total m P -> mem_n next P = false ->
+  agree (N.succ next) total (create_invite m next) (next :: P).
+Proof.
+  intros next total m P A NP. constructor.
+  - intros e i Hin He. unfold create_invite, push in Hin. cbn [pm_tokens] in Hin. apply in_app_or in Hin.
+    destruct Hin as [Hin|[Hin|[]]]; [eapply ag_under; eassumption|].
+    subst e. cbn [fst] in He. inversion He; subst i. unfold registered. cbn [fst snd token_eqb is_owned]. rewrite N.eqb_refl. reflexivity.
+  - intros e Hin. unfold create_invite, push in Hin. cbn [pm_tokens] in Hin. apply in_app_or in Hin.
+    destruct Hin as [Hin|[Hin|[]]]; [eapply ag_placed; eassumption|].
+    subst e. cbn [fst snd]. split; [intros i Hi; inversion Hi; reflexivity | intros; discriminate].
+  - intros i. unfold create_invite, push. cbn [pm_tokens]. rewrite cntr_app, mem_n_cons. rewrite (ag_count _ _ _ _ A i).
+    unfold cntr at 1. cbn [filter]. unfold registered. cbn [fst snd token_eqb is_owned is_invite]. rewrite orb_false_r, andb_diag.
+    rewrite (N.eqb_sym next i). destruct (N.eqb i next) eqn:E; cbn [orb length].
+    + apply N.eqb_eq in E. subst i. rewrite NP. reflexivity.
+    + destruct (mem_n i P); reflexivity.
+  - intros i Hi. rewrite mem_n_cons in Hi. apply orb_true_iff in Hi. destruct Hi as [Hi|Hi].
+    + apply N.eqb_eq in Hi. subst i. left. lia.
+    + destruct (ag_ids _ _ _ _ A i Hi); [left; lia | right; assumption].
+Qed.
+Lemma agree_accept_known : forall next total m P inv, agree next total m P -> mem_n inv P = true ->
+  agree next total m (inv :: P).
+Proof.
+  intros next total m P inv A M. constructor; try apply A.
+  - intros i. rewrite mem_n_cons. rewrite (ag_count _ _ _ _ A i).
+    destruct (N.eqb i inv) eqn:Ei; cbn [orb]; [|reflexivity]. apply N.eqb_eq in Ei. subst i. rewrite M. reflexivity.
+  - intros i Hi. rewrite mem_n_cons in Hi. apply orb_true_iff in Hi. destruct Hi as [Hi|Hi]; [|apply (ag_ids _ _ _ _ A); exact Hi].
+    apply N.eqb_eq in Hi. subst i. apply (ag_ids _ _ _ _ A). exact M.
+Qed.
+Lemma agree_accept_new : forall next total m P inv a sg, agree next total m P -> mem_n inv P = false ->
+  (inv < next \/ total < inv) -> agree next total (push m (TkInvite inv) (TInvite inv a sg)) (inv :: P).
+Proof.
+  intros next total m P inv a sg A NP Hid. constructor.
+  - intros e i Hin He. unfold push in Hin. cbn [pm_tokens] in Hin. apply in_app_or in Hin.
+    destruct Hin as [Hin|[Hin|[]]]; [eapply ag_under; eassumption|].
+    subst e. cbn [fst] in He. inversion He; subst i. unfold registered. cbn [fst snd token_eqb is_owned is_invite]. rewrite N.eqb_refl. reflexivity.
+  - intros e Hin. unfold push in Hin. cbn [pm_tokens] in Hin. apply in_app_or in Hin.
+    destruct Hin as [Hin|[Hin|[]]]; [eapply ag_placed; eassumption|].
+    subst e. cbn [fst snd]. split; [intros; discriminate | intros i a0 s0 Hi; inversion Hi; reflexivity].
+  - intros i. unfold push. cbn [pm_tokens]. rewrite cntr_app, mem_n_cons. rewrite (ag_count _ _ _ _ A i).
+    unfold cntr at 1. cbn [filter]. unfold registered. cbn [fst snd token_eqb is_owned is_invite]. cbn [orb]. rewrite andb_diag.
+    rewrite (N.eqb_sym inv i). destruct (N.eqb i inv) eqn:Ei; cbn [orb length].
+    + apply N.eqb_eq in Ei. subst i. rewrite NP. reflexivity.
+    + destruct (mem_n i P); reflexivity.
+  - intros i Hi. rewrite mem_n_cons in Hi. apply orb_true_iff in Hi. destruct Hi as [Hi|Hi]; [|apply (ag_ids _ _ _ _ A); exact Hi].
+    apply N.eqb_eq in Hi. subst i. exact Hid.
+Qed.
+
+Lemma In_push : forall m tk t e, In e (pm_tokens (push m tk t)) -> In e (pm_tokens m) \/ e = (tk, t).
+Proof. intros m tk t e H. unfold push in H. cbn [pm_tokens] in H. apply in_app_or in H. destruct H as [H|[H|[]]]; auto. Qed.
+
+(* a restart: the rebuilt table agrees with the pending set again *)
+Lemma dagree_restart : forall mk next total s P, dagree next total s P -> next <= N.succ total ->
+  dagree next total {| sy_pm := rebuild mk s; sy_next := sy_next s; sy_db_owned := sy_db_owned s;
+                       sy_db_invites := sy_db_invites s; sy_db_allowed := sy_db_allowed s |} P.
+Proof.
+  intros mk next total s P D Hn.
+  assert (Shape : forall e, In e (pm_tokens (rebuild mk s)) ->
+            e = (TkOwn, TAllowed mk) \/ (exists p, e = (token_of (pm_secret (sy_pm s)) (p_pub p), TAllowed (p_key p))) \/
+            (exists j, In j (sy_db_owned s) /\ e = (TkInvite j, TOwned j)) \/
+            (exists j a sg, In (j, a, sg) (sy_db_invites s) /\ e = (TkInvite j, TInvite j a sg))).
+  { intros e H. unfold rebuild, with_tokens in H. cbn [pm_tokens] in H. destruct H as [H|H]; [left; auto|].
+    apply in_app_or in H. destruct H as [H|H].
+    - apply in_map_iff in H. destruct H as [p [E _]]. right. left. exists p. auto.
+    - apply in_app_or in H. destruct H as [H|H].
+      + apply in_map_iff in H. destruct H as [j [E Hj]]. right. right. left. exists j. auto.
+      + apply in_map_iff in H. destruct H as [[[j a] sg] [E Hj]]. right. right. right. exists j, a, sg. auto. }
+  constructor; cbn [sy_pm sy_db_owned sy_db_invites sy_next]; try apply D.
+  - (* the table *)
+    constructor.
+    + intros e i Hin He. destruct (Shape e Hin) as [E|[[p E]|[[j [_ E]]|[j [a [sg [_ E]]]]]]]; subst e; cbn [fst] in He.
+      * discriminate He.
+      * exfalso. eapply token_of_not_invite. exact He.
+      * inversion He; subst. unfold registered. cbn [fst snd token_eqb is_owned]. rewrite N.eqb_refl. reflexivity.
+      * inversion He; subst. unfold registered. cbn [fst snd token_eqb is_owned is_invite]. rewrite N.eqb_refl. reflexivity.
+    + intros e Hin. destruct (Shape e Hin) as [E|[[p E]|[[j [_ E]]|[j [a [sg [_ E]]]]]]]; subst e; cbn [fst snd]; split; intros; try discriminate.
+      * inversion H; reflexivity.
+      * inversion H; reflexivity.
+    + intros i. unfold rebuild, with_tokens. cbn [pm_tokens].
+      change ((TkOwn, TAllowed mk) :: ?l) with ([(TkOwn, TAllowed mk)] ++ l).
+      rewrite !cntr_app, cntr_allowed_map, (cntr_owned_map i _ (da_dbo_nodup _ _ _ _ D)), (cntr_invite_map i _ (da_dbi_uniq _ _ _ _ D)).
+      unfold cntr at 1. cbn [filter]. unfold registered at 1. cbn [fst token_eqb andb length plus].
+      destruct (N.ltb i next) eqn:Li.
+      * apply N.ltb_lt in Li.
+        assert (X : idin i (sy_db_invites s) = false).
+        { destruct (idin i (sy_db_invites s)) eqn:E; [|reflexivity]. apply idin_In in E. apply in_map_iff in E.
+          destruct E as [x [Ex Hx]]. pose proof (da_dbi_gt _ _ _ _ D x Hx). lia. }
+        rewrite X, <- (da_dbo _ _ _ _ D i Li). destruct (mem_n i P); reflexivity.
+      * apply N.ltb_ge in Li.
+        assert (X : existsb (N.eqb i) (sy_db_owned s) = false).
+        { apply existsb_eqb_notin. intro H. pose proof (da_dbo_lt _ _ _ _ D i H). lia. }
+        rewrite X. destruct (N.ltb total i) eqn:Lt.
+        -- apply N.ltb_lt in Lt. rewrite <- (da_dbi _ _ _ _ D i Lt). destruct (mem_n i P); reflexivity.
+        -- apply N.ltb_ge in Lt.
+           assert (Y : idin i (sy_db_invites s) = false).
+           { destruct (idin i (sy_db_invites s)) eqn:E; [|reflexivity]. apply idin_In in E. apply in_map_iff in E.
+             destruct E as [x [Ex Hx]]. pose proof (da_dbi_gt _ _ _ _ D x Hx). lia. }
+           rewrite Y. destruct (mem_n i P) eqn:M; [|reflexivity].
+           destruct (ag_ids _ _ _ _ (da_mem _ _ _ _ D) i M); lia.
+    + apply (ag_ids _ _ _ _ (da_mem _ _ _ _ D)).
+  - intros tk i Hin. destruct (Shape _ Hin) as [E|[[p E]|[[j [Hj E]]|[j [a [sg [_ E]]]]]]]; try discriminate E.
+    inversion E; subst. apply (da_dbo_lt _ _ _ _ D). exact Hj.
+  - intros tk i a sg Hin. destruct (Shape _ Hin) as [E|[[p E]|[[j [_ E]]|[j [a' [sg' [Hj E]]]]]]]; try discriminate E.
+    inversion E; subst. apply (da_dbi_gt _ _ _ _ D _ Hj).
+Qed.
+
+Lemma filter_neq_existsb : forall i inv l, existsb (N.eqb i) (filter (fun j => negb (N.eqb j inv)) l) = existsb (N.eqb i) l && negb (N.eqb i inv).
+Proof.
+  intros i inv. induction l as [|j l IH]; [reflexivity|]. cbn [filter existsb].
+  destruct (N.eqb j inv) eqn:E; cbn [negb existsb].
+  - rewrite IH. apply N.eqb_eq in E. subst j. destruct (N.eqb i inv); cbn [orb negb]; [rewrite !andb_false_r; reflexivity | reflexivity].
+  - rewrite IH. destruct (N.eqb i j) eqn:E2; cbn [orb]; [|reflexivity].
+    apply N.eqb_eq in E2. subst j. rewrite E. reflexivity.
+Qed.
+Lemma filter_id_idin : forall i inv (l : list (N * N * option key)),
+  idin i (filter (fun x => negb (N.eqb (fst (fst x)) inv)) l) = idin i l && negb (N.eqb i inv).
+Proof.
+  intros i inv. unfold idin. induction l as [|x l IH]; [reflexivity|]. cbn [filter existsb].
+  destruct (N.eqb (fst (fst x)) inv) eqn:E; cbn [negb existsb].
+  - rewrite IH. apply N.eqb_eq in E. rewrite E. rewrite (N.eqb_sym inv i). destruct (N.eqb i inv); cbn [orb negb]; [rewrite !andb_false_r; reflexivity | reflexivity].
+  - rewrite IH. destruct (N.eqb (fst (fst x)) i) eqn:E2; cbn [orb]; [|reflexivity].
+    apply N.eqb_eq in E2. rewrite E2 in E. rewrite E. reflexivity.
+Qed.
+Lemma NoDup_filter : forall {A} (f : A -> bool) l, NoDup l -> NoDup (filter f l).
+Proof.
+  intros A f. induction l as [|x l IH]; intros ND; [constructor|]. inversion ND; subst. cbn [filter].
+  destruct (f x); [constructor; [intro H; apply filter_In in H; tauto | auto] | auto].
+Qed.
+Lemma NoDup_map_filter : forall {A B} (g : A -> B) (f : A -> bool) l, NoDup (map g l) -> NoDup (map g (filter f l)).
+Proof.
+  intros A B g f. induction l as [|x l IH]; intros ND; [constructor|]. cbn [map] in ND. inversion ND; subst. cbn [filter].
+  destruct (f x); cbn [map]; [constructor; [|auto] | auto].
+  intro H. apply H1. apply in_map_iff in H. destruct H as [y [E Hy]]. apply filter_In in Hy. apply in_map_iff. exists y. tauto.
+Qed.
+
+Lemma NoDup_snoc : forall {A} (l : list A) x, NoDup l -> ~ In x l -> NoDup (l ++ [x]).
+Proof.
+  intros A l x ND Hx. induction ND as [|y l Hy ND IH]; [cbn; constructor; [intros []|constructor]|].
+  cbn [app]. constructor.
+  - intro H. apply in_app_or in H. destruct H as [H|[H|[]]]; [contradiction | subst; apply Hx; left; reflexivity].
+  - apply IH. intro H. apply Hx. right. exact H.
+Qed.
+
+(* THE whole-history theorem for the table with its database: restarts and default rooms included *)
+Lemma spec_dops_run : forall mk total ops next s P, dagree next total s P ->
+  next + n_dcreates ops = N.succ total -> dops_ok total ops = true ->
+  spec_dops (pm_app (sy_pm s)) P ops (run_dops mk s ops) = true.
+Proof.
+  intros mk total. induction ops as [|o ops IH]; intros next s P D Hn Ok; [reflexivity|].
+  cbn [run_dops].
+  pose proof (da_mem _ _ _ _ D) as A.
+  destruct o as [g|b|tk k|tk p|]; cbn [dstep].
+  - (* create *)
+    cbn [n_dcreates] in Hn. cbn [dops_ok] in Ok. rewrite (da_next _ _ _ _ D).
+    cbn [spec_dops dop_ok dpending_after andb]. unfold zn. rewrite N2Z.id.
+    assert (NP : mem_n next P = false).
+    { destruct (mem_n next P) eqn:M; [|reflexivity]. destruct (ag_ids _ _ _ _ A next M); lia. }
+    set (s' := {| sy_pm := create_invite (sy_pm s) next; sy_next := N.succ next; sy_db_owned := sy_db_owned s ++ [next];
+                  sy_db_invites := sy_db_invites s; sy_db_allowed := sy_db_allowed s |}).
+    change (pm_app (sy_pm s)) with (pm_app (sy_pm s')). apply (IH (N.succ next)); [|lia|exact Ok].
+    constructor; cbn [sy_pm sy_db_owned sy_db_invites sy_next s'].
+    + apply agree_create; assumption.
+    + intros t i Hin. apply In_push in Hin. destruct Hin as [Hin|E]; [pose proof (da_owned_lt _ _ _ _ D _ _ Hin); lia | inversion E; lia].
+    + intros t i a sg Hin. apply In_push in Hin. destruct Hin as [Hin|E]; [eapply (da_inv_gt _ _ _ _ D); exact Hin | discriminate E].
+    + apply NoDup_snoc.
+      * exact (da_dbo_nodup _ _ _ _ D).
+      * intro H. pose proof (da_dbo_lt _ _ _ _ D next H). lia.
+    + intros i Hi. rewrite mem_n_cons, existsb_app. cbn [existsb]. rewrite orb_false_r.
+      destruct (N.eqb i next) eqn:E; cbn [orb].
+      * rewrite orb_true_r. reflexivity.
+      * rewrite orb_false_r. apply N.eqb_neq in E. apply (da_dbo _ _ _ _ D). lia.
+    + intros i Hin. apply in_app_or in Hin. destruct Hin as [Hin|[Hin|[]]]; [pose proof (da_dbo_lt _ _ _ _ D i Hin); lia | lia].
+    + exact (da_dbi_uniq _ _ _ _ D).
+    + intros i Hi. rewrite mem_n_cons. assert (E : N.eqb i next = false) by (apply N.eqb_neq; lia). rewrite E. apply (da_dbi _ _ _ _ D). exact Hi.
+    + exact (da_dbi_gt _ _ _ _ D).
+    + reflexivity.
+  - (* accept *)
+    cbn [n_dcreates] in Hn.
+    destruct b as [|inv a sg]; cbn [accept_invite].
+    + cbn [spec_dops dop_ok dpending_after zn Z.of_N Z.eqb andb]. cbn [dops_ok] in Ok. apply (IH next); assumption.
+    + cbn [dops_ok] in Ok. apply andb_true_iff in Ok. destruct Ok as [Oid Ok]. apply N.ltb_lt in Oid.
+      destruct (N.eqb a (pm_app (sy_pm s))) eqn:E.
+      2:{ cbn [spec_dops dop_ok dpending_after zn Z.of_N Z.eqb andb]. apply (IH next); assumption. }
+      assert (Pm : mem_n inv P = existsb (registered inv) (pm_tokens (sy_pm s))).
+      { rewrite existsb_cntr, (ag_count _ _ _ _ A inv). destruct (mem_n inv P); reflexivity. }
+      assert (Pd : mem_n inv P = idin inv (sy_db_invites s)) by (apply (da_dbi _ _ _ _ D); exact Oid).
+      destruct (existsb (registered inv) (pm_tokens (sy_pm s))) eqn:X.
+      * (* already known: the row exists too, nothing changes *)
+        cbn [spec_dops dop_ok dpending_after zn Z.of_N Z.eqb Pos.eqb]. rewrite E. cbn [andb].
+        assert (Xd : existsb (fun x : N * N * option key => N.eqb (fst (fst x)) inv) (sy_db_invites s) = true)
+          by (change (idin inv (sy_db_invites s) = true); rewrite <- Pd, Pm; reflexivity).
+        rewrite Xd.
+        set (s' := {| sy_pm := sy_pm s; sy_next := sy_next s; sy_db_owned := sy_db_owned s;
+                      sy_db_invites := sy_db_invites s; sy_db_allowed := sy_db_allowed s |}).
+        change (pm_app (sy_pm s)) with (pm_app (sy_pm s')). apply (IH next); [|exact Hn|exact Ok].
+        constructor; cbn [sy_pm sy_db_owned sy_db_invites sy_next s']; try apply D.
+        -- apply agree_accept_known; [exact A | exact Pm].
+        -- intros i Hi. rewrite mem_n_cons. assert (Ne : N.eqb i inv = false) by (apply N.eqb_neq; pose proof (da_dbo_lt _ _ _ _ D); lia).
+           rewrite Ne. apply (da_dbo _ _ _ _ D). exact Hi.
+        -- intros i Hi. rewrite mem_n_cons. destruct (N.eqb i inv) eqn:Ei; cbn [orb]; [|apply (da_dbi _ _ _ _ D); exact Hi].
+           apply N.eqb_eq in Ei. subst i. symmetry. exact Xd.
+      * (* registered now, row written now *)
+        cbn [spec_dops dop_ok dpending_after zn Z.of_N Z.eqb Pos.eqb]. rewrite E. cbn [andb].
+        assert (Xd : existsb (fun x : N * N * option key => N.eqb (fst (fst x)) inv) (sy_db_invites s) = false)
+          by (change (idin inv (sy_db_invites s) = false); rewrite <- Pd, Pm; reflexivity).
+        rewrite Xd.
+        set (s' := {| sy_pm := push (sy_pm s) (TkInvite inv) (TInvite inv a sg); sy_next := sy_next s; sy_db_owned := sy_db_owned s;
+                      sy_db_invites := sy_db_invites s ++ [(inv, a, sg)]; sy_db_allowed := sy_db_allowed s |}).
+        change (pm_app (sy_pm s)) with (pm_app (sy_pm s')). apply (IH next); [|exact Hn|exact Ok].
+        constructor; cbn [sy_pm sy_db_owned sy_db_invites sy_next s']; try apply D.
+        -- apply agree_accept_new; [exact A | exact Pm | right; exact Oid].
+        -- intros t i Hin. apply In_push in Hin. destruct Hin as [Hin|Ee]; [eapply (da_owned_lt _ _ _ _ D); exact Hin | discriminate Ee].
+        -- intros t i a0 sg0 Hin. apply In_push in Hin. destruct Hin as [Hin|Ee]; [eapply (da_inv_gt _ _ _ _ D); exact Hin | inversion Ee; subst; exact Oid].
+        -- intros i Hi. rewrite mem_n_cons. assert (Ne : N.eqb i inv = false) by (apply N.eqb_neq; lia).
+           rewrite Ne. apply (da_dbo _ _ _ _ D). exact Hi.
+        -- rewrite map_app. cbn [map fst]. apply NoDup_snoc; [exact (da_dbi_uniq _ _ _ _ D)|].
+           intro H. apply idin_In in H. unfold idin in H. rewrite Xd in H. discriminate H.
+        -- intros i Hi. rewrite mem_n_cons. unfold idin. rewrite existsb_app. cbn [existsb fst]. rewrite orb_false_r.
+           rewrite (N.eqb_sym inv i). destruct (N.eqb i inv); cbn [orb]; [rewrite orb_true_r; reflexivity|].
+           rewrite orb_false_r. apply (da_dbi _ _ _ _ D). exact Hi.
+        -- intros x Hx. apply in_app_or in Hx. destruct Hx as [Hx|[Hx|[]]]; [apply (da_dbi_gt _ _ _ _ D); exact Hx | subst x; exact Oid].
+  - (* lookup *)
+    cbn [n_dcreates] in Hn. cbn [dops_ok] in Ok.
+    assert (Unk : forall inv, tk = TkInvite inv -> mem_n inv P = false -> get_token_type (sy_pm s) tk k = None)
+      by (intros inv Et M; subst tk; eapply agree_unknown; eassumption).
+    destruct (get_token_type (sy_pm s) tk k) as [t|] eqn:G.
+    + assert (Pend : match tk with TkInvite inv => mem_n inv P = true | _ => True end).
+      { destruct tk; try exact Logic.I. destruct (mem_n inv P) eqn:M; [reflexivity|]. specialize (Unk inv eq_refl M). discriminate Unk. }
+      assert (Key : forall q, t = TAllowed q -> q = k).
+      { intros q Et. subst t. unfold get_token_type in G. destruct (find _ (pm_tokens (sy_pm s))) as [e|] eqn:F; [|discriminate G].
+        inversion G as [G']. apply find_some in F. destruct F as [_ He]. apply andb_true_iff in He. destruct He as [_ He].
+        rewrite G' in He. cbn [entry_matches] in He. apply N.eqb_eq. exact He. }
+      destruct t as [q|i|i a0 s0]; cbn [spec_dops dop_ok dpending_after zn Z.of_N Z.eqb Pos.eqb];
+        rewrite (IH next s P D Hn Ok), andb_true_r.
+      * rewrite (Key q eq_refl). unfold zn. rewrite Z.eqb_refl. cbn [andb]. destruct tk; try reflexivity. rewrite Pend. reflexivity.
+      * cbn [andb]. destruct tk; try reflexivity. rewrite Pend. reflexivity.
+      * cbn [andb]. destruct tk; try reflexivity. rewrite Pend. reflexivity.
+    + cbn [spec_dops dop_ok dpending_after zn Z.of_N Z.eqb]. rewrite (IH next s P D Hn Ok), andb_true_r. cbn [andb].
+      destruct tk; try reflexivity. destruct (mem_n inv P); reflexivity.
+  - (* consume *)
+    cbn [n_dcreates] in Hn. cbn [dops_ok] in Ok.
+    assert (Unk : forall inv, tk = TkInvite inv -> mem_n inv P = false -> get_token_type (sy_pm s) tk (p_key p) = None)
+      by (intros inv Et M; subst tk; eapply agree_unknown; eassumption).
+    destruct (get_token_type (sy_pm s) tk (p_key p)) as [t|] eqn:G.
+    2:{ cbn [spec_dops dop_ok zn Z.of_N Z.eqb].
+        assert (PA : dpending_after P (DConsume tk p) 0 0 = P) by (destruct tk; reflexivity). rewrite PA.
+        rewrite (IH next s P D Hn Ok), andb_true_r. destruct tk; try reflexivity. destruct (mem_n inv P); reflexivity. }
+    assert (Hin : In (tk, t) (pm_tokens (sy_pm s))).
+    { unfold get_token_type in G. destruct (find _ (pm_tokens (sy_pm s))) as [e|] eqn:F; [|discriminate G].
+      inversion G. apply find_some in F. destruct F as [Hin He]. apply andb_true_iff in He. destruct He as [He _].
+      apply token_eqb_eq in He. destruct e as [e1 e2]. cbn [fst snd] in *. subst. exact Hin. }
+    assert (Pend : forall inv, tk = TkInvite inv -> mem_n inv P = true).
+    { intros inv Et. destruct (mem_n inv P) eqn:M; [reflexivity|]. specialize (Unk inv Et M). discriminate Unk. }
+    destruct t as [q|j|j a0 sg0].
+    + (* an allowed peer: nothing is consumed *)
+      cbn [spec_dops dop_ok zn Z.of_N Z.eqb Pos.eqb].
+      assert (PA : dpending_after P (DConsume tk p) 1 0 = P) by (destruct tk; reflexivity). rewrite PA.
+      rewrite (IH next s P D Hn Ok), andb_true_r. destruct tk; try reflexivity. rewrite (Pend inv eq_refl). reflexivity.
+    + (* an owned invitation j < next *)
+      assert (Etk : tk = TkInvite j) by (apply (proj1 (ag_placed _ _ _ _ A _ Hin) j); reflexivity).
+      subst tk.
+      assert (Lj : j < next) by (eapply (da_owned_lt _ _ _ _ D); exact Hin).
+      cbn [spec_dops dop_ok dpending_after zn Z.of_N Z.eqb Pos.eqb]. rewrite (Pend j eq_refl). cbn [andb].
+      set (m1 := push (sy_pm s) (token_of (pm_secret (sy_pm s)) (p_pub p)) (TAllowed (p_key p))).
+      set (m' := {| pm_app := pm_app m1; pm_secret := pm_secret m1;
+                    pm_tokens := remove_first (TkInvite j) (is_owned j) (pm_tokens m1) |}).
+      assert (CC : invite_accepted (sy_pm s) (TOwned j) p = Some m') by reflexivity.
+      unfold consume_owned. rewrite CC.
+      set (s' := {| sy_pm := m'; sy_next := sy_next s; sy_db_owned := filter (fun i => negb (N.eqb i j)) (sy_db_owned s);
+                    sy_db_invites := sy_db_invites s; sy_db_allowed := add_allowed (sy_db_allowed s) p |}).
+      change (pm_app (sy_pm s)) with (pm_app (sy_pm s')). apply (IH next); [|exact Hn|exact Ok].
+      constructor; cbn [sy_pm sy_db_owned sy_db_invites sy_next s']; try apply D.
+      * apply (agree_consume next total m1 P j (is_owned j) m').
+        -- unfold m1. apply agree_push_allowed. exact A.
+        -- intros x Hx. unfold registered. apply andb_true_iff in Hx. destruct Hx as [H1 H2]. rewrite H1, H2. reflexivity.
+        -- exists (TkInvite j, TOwned j). split; [unfold m1, push; cbn [pm_tokens]; apply in_or_app; left; exact Hin|].
+           cbn [fst snd token_eqb is_owned]. rewrite !N.eqb_refl. reflexivity.
+        -- reflexivity.
+      * intros t i Hi. unfold m' in Hi. cbn [pm_tokens] in Hi. apply remove_first_incl in Hi. apply In_push in Hi.
+        destruct Hi as [Hi|Ee]; [eapply (da_owned_lt _ _ _ _ D); exact Hi | discriminate Ee].
+      * intros t i a sg Hi. unfold m' in Hi. cbn [pm_tokens] in Hi. apply remove_first_incl in Hi. apply In_push in Hi.
+        destruct Hi as [Hi|Ee]; [eapply (da_inv_gt _ _ _ _ D); exact Hi | discriminate Ee].
+      * apply NoDup_filter. exact (da_dbo_nodup _ _ _ _ D).
+      * intros i Hi. rewrite mem_n_drop, filter_neq_existsb, (da_dbo _ _ _ _ D i Hi). reflexivity.
+      * intros i Hi. apply filter_In in Hi. apply (da_dbo_lt _ _ _ _ D). apply Hi.
+      * intros i Hi. rewrite mem_n_drop. assert (Ne : N.eqb i j = false) by (apply N.eqb_neq; lia).
+        rewrite Ne, andb_true_r. apply (da_dbi _ _ _ _ D). exact Hi.
+    + (* a received invitation j > total *)
+      assert (Etk : tk = TkInvite j) by (apply (proj2 (ag_placed _ _ _ _ A _ Hin) j a0 sg0); reflexivity).
+      subst tk.
+      assert (Lj : total < j) by (eapply (da_inv_gt _ _ _ _ D); exact Hin).
+      destruct (match sg0 with Some k0 => N.eqb k0 (p_key p) | None => false end).
+      2:{ cbn [spec_dops dop_ok dpending_after zn Z.of_N Z.eqb Pos.eqb]. rewrite (Pend j eq_refl). cbn [andb]. apply (IH next); assumption. }
+      cbn [spec_dops dop_ok dpending_after zn Z.of_N Z.eqb Pos.eqb]. rewrite (Pend j eq_refl). cbn [andb].
+      set (m1 := push (sy_pm s) (token_of (pm_secret (sy_pm s)) (p_pub p)) (TAllowed (p_key p))).
+      set (m' := {| pm_app := pm_app m1; pm_secret := pm_secret m1;
+                    pm_tokens := remove_first (TkInvite j) (is_invite j) (pm_tokens m1) |}).
+      assert (CC : invite_accepted (sy_pm s) (TInvite j a0 sg0) p = Some m') by reflexivity.
+      unfold consume_invite. rewrite CC.
+      set (s' := {| sy_pm := m'; sy_next := sy_next s; sy_db_owned := sy_db_owned s;
+                    sy_db_invites := filter (fun x => negb (N.eqb (fst (fst x)) j)) (sy_db_invites s);
+                    sy_db_allowed := add_allowed (sy_db_allowed s) p |}).
+      change (pm_app (sy_pm s)) with (pm_app (sy_pm s')). apply (IH next); [|exact Hn|exact Ok].
+      constructor; cbn [sy_pm sy_db_owned sy_db_invites sy_next s']; try apply D.
+      * apply (agree_consume next total m1 P j (is_invite j) m').
+        -- unfold m1. apply agree_push_allowed. exact A.
+        -- intros x Hx. unfold registered. apply andb_true_iff in Hx. destruct Hx as [H1 H2]. rewrite H1, H2. apply orb_true_r.
+        -- exists (TkInvite j, TInvite j a0 sg0). split; [unfold m1, push; cbn [pm_tokens]; apply in_or_app; left; exact Hin|].
+           cbn [fst snd token_eqb is_invite]. rewrite !N.eqb_refl. reflexivity.
+        -- reflexivity.
+      * intros t i Hi. unfold m' in Hi. cbn [pm_tokens] in Hi. apply remove_first_incl in Hi. apply In_push in Hi.
+        destruct Hi as [Hi|Ee]; [eapply (da_owned_lt _ _ _ _ D); exact Hi | discriminate Ee].
+      * intros t i a sg Hi. unfold m' in Hi. cbn [pm_tokens] in Hi. apply remove_first_incl in Hi. apply In_push in Hi.
+        destruct Hi as [Hi|Ee]; [eapply (da_inv_gt _ _ _ _ D); exact Hi | discriminate Ee].
+      * intros i Hi. rewrite mem_n_drop. assert (Ne : N.eqb i j = false) by (apply N.eqb_neq; pose proof (da_dbo_lt _ _ _ _ D); lia).
+        rewrite Ne, andb_true_r. apply (da_dbo _ _ _ _ D). exact Hi.
+      * apply NoDup_map_filter. exact (da_dbi_uniq _ _ _ _ D).
+      * intros i Hi. rewrite mem_n_drop, filter_id_idin, (da_dbi _ _ _ _ D i Hi). reflexivity.
+      * intros x Hx. apply filter_In in Hx. apply (da_dbi_gt _ _ _ _ D). apply Hx.
+  - (* restart *)
+    cbn [n_dcreates] in Hn. cbn [dops_ok] in Ok.
+    cbn [spec_dops dop_ok dpending_after andb].
+    set (s' := {| sy_pm := rebuild mk s; sy_next := sy_next s; sy_db_owned := sy_db_owned s;
+                  sy_db_invites := sy_db_invites s; sy_db_allowed := sy_db_allowed s |}).
+    change (pm_app (sy_pm s)) with (pm_app (sy_pm s')). apply (IH next); [|exact Hn|exact Ok].
+    apply dagree_restart; [exact D | lia].
+Qed.
+
+Lemma init_dagree : forall app me mk total, dagree 1 total (init_sys app me mk) [].
+Proof.
+  intros. constructor; cbn [init_sys sy_pm sy_db_owned sy_db_invites sy_next].
+  - apply (init_agree app me mk total).
+  - intros t i H. cbn in H. destruct H as [H|[]]. discriminate H.
+  - intros t i a sg H. cbn in H. destruct H as [H|[]]. discriminate H.
+  - constructor.
+  - intros i Hi. reflexivity.
+  - intros i [].
+  - constructor.
+  - intros i Hi. reflexivity.
+  - intros x [].
+  - reflexivity.
+Qed.
+
+(* HOLDS for every history of creations (with or without default room, grantable or not), acceptances
+   of foreign invitations, lookups, uses and RESTARTS: an invitation is consumed only while pending,
+   and a consumption ends it — across restarts too *)
+Theorem invdb_holds : forall app me mk ops, dops_ok (n_dcreates ops) ops = true ->
+  spec_dops app [] ops (run_dops mk (init_sys app me mk) ops) = true.
+Proof.
+  intros app me mk ops Ok.
+  change app with (pm_app (sy_pm (init_sys app me mk))) at 1.
+  apply (spec_dops_run mk (n_dcreates ops) ops 1); [apply init_dagree | lia | exact Ok].
+Qed.
 
 (* ================================================================ run / spec, all three families *)
 Definition case_ok (c : c19case) : Prop :=
@@ -758,7 +1180,7 @@ Definition case_ok (c : c19case) : Prop :=
   | CTokens secs probes => secs_fun secs /\ forall p, In p probes -> (fst p < length secs)%nat /\ (snd p < length secs)%nat
   | CInvites _ _ _ ops => ops_ok 1 (n_creates ops) ops = true
   | CSession nonces conns => length nonces = length conns /\ NoDup nonces
-  | CInvDb _ _ _ _ => False      (* histories with restarts and default rooms: targeted theorems only, compared case by case *)
+  | CInvDb _ _ _ ops => dops_ok (n_dcreates ops) ops = true
   | _ => True
   end.
 
@@ -783,7 +1205,7 @@ Proof.
   - destruct Ok as [F D]. destruct (probes_defined secs probes D) as [ts Hts]. rewrite Hts.
     apply spec_tokens_run; [exact F | apply known_tokens_no_clash; exact K | exact Hts].
   - destruct Ok as [L ND]. apply session_spec; assumption.
-  - destruct Ok.
+  - apply invdb_holds. exact Ok.
   - apply serve_conn_spec.
 Qed.
 
